@@ -67,6 +67,15 @@ CHECKS = {
         "level_note": "The decoder is my reading of the format documents (self-tested on /repo/testdata third-party files). zstd/brotli decompression and gzip come from upstream packages / the standard library. WriteRowGroup-produced files are verified by the same walker from C11; SortingWriter files from C10.",
         "design_ref": "DESIGN.md §4 C02",
     },
+    "C05": {
+        "pkg": "c05", "level": "exploration",
+        "quick": {"shards": 8, "checks": 400, "timeout": 900},
+        "thorough": {"shards": 16, "checks": 6000, "timeout": 5000},
+        "technique": "property-based testing (rapid): recorded statistics and page indexes checked against truth recomputed by an independent decoder, with reference comparators per sort order",
+        "level_text": "Random search over column type/order x page layout x size limit x statistics options x producer path; the independent decoder of C02 gives the true per-page values, and every recorded bound, count, histogram, null-page flag, boundary order and sorting column is compared with the recount under comparators written from LogicalTypes.md.",
+        "level_note": "Trusts harness/ref comparators and decoder. Pages are small (≤ a few thousand values), so kernels that only run on very large pages (≥256k values) are not reached in the quick tier. Deprecated min/max and INT96 order are not asserted.",
+        "design_ref": "DESIGN.md §4 C05",
+    },
 }
 
 NOT_APPLICABLE = {
